@@ -17,9 +17,9 @@ pub fn dispatch(op: &str, _ty: &str, args: &[Arg]) -> Option<String> {
             let a = match mk::<u8>(sh, es) { Some(a) => a, None => return Some("bad:input".into()) };
             let (ax, cnt) = (opt_isize(ax)?, opt_isize(cnt)?);
             match o {
-                Arg::N => res_arr(&a.unpack_bits(ax, cnt, None::<BitOrder>)),
-                Arg::Z(k) => res_arr(&a.unpack_bits(ax, cnt, Some(if *k == 1 { BitOrder::Little } else { BitOrder::Big }))),
-                Arg::S(s) => res_arr(&a.unpack_bits(ax, cnt, Some(std::str::from_utf8(s).ok()?))),
+                Arg::N => w2(res_arr(&a.unpack_bits(ax, cnt, None::<BitOrder>)), res_arr(&okr(&a).unpack_bits(ax, cnt, None::<BitOrder>))),
+                Arg::Z(k) => w2(res_arr(&a.unpack_bits(ax, cnt, Some(if *k == 1 { BitOrder::Little } else { BitOrder::Big }))), res_arr(&okr(&a).unpack_bits(ax, cnt, Some(if *k == 1 { BitOrder::Little } else { BitOrder::Big })))),
+                Arg::S(s) => w2(res_arr(&a.unpack_bits(ax, cnt, Some(std::str::from_utf8(s).ok()?))), res_arr(&okr(&a).unpack_bits(ax, cnt, Some(std::str::from_utf8(s).ok()?)))),
                 _ => return Some("bad".into()),
             }
         }
@@ -27,9 +27,9 @@ pub fn dispatch(op: &str, _ty: &str, args: &[Arg]) -> Option<String> {
             let a = match mk::<u8>(sh, es) { Some(a) => a, None => return Some("bad:input".into()) };
             let ax = opt_isize(ax)?;
             match o {
-                Arg::N => res_arr(&a.pack_bits(ax, None::<BitOrder>)),
-                Arg::Z(k) => res_arr(&a.pack_bits(ax, Some(if *k == 1 { BitOrder::Little } else { BitOrder::Big }))),
-                Arg::S(s) => res_arr(&a.pack_bits(ax, Some(String::from_utf8(s.clone()).ok()?))),
+                Arg::N => w2(res_arr(&a.pack_bits(ax, None::<BitOrder>)), res_arr(&okr(&a).pack_bits(ax, None::<BitOrder>))),
+                Arg::Z(k) => w2(res_arr(&a.pack_bits(ax, Some(if *k == 1 { BitOrder::Little } else { BitOrder::Big }))), res_arr(&okr(&a).pack_bits(ax, Some(if *k == 1 { BitOrder::Little } else { BitOrder::Big })))),
+                Arg::S(s) => w2(res_arr(&a.pack_bits(ax, Some(String::from_utf8(s.clone()).ok()?))), res_arr(&okr(&a).pack_bits(ax, Some(String::from_utf8(s.clone()).ok()?)))),
                 _ => return Some("bad".into()),
             }
         }
